@@ -51,13 +51,18 @@ def _valid_sources(rng):
 
 
 def _damage(rng, text, k):
-    kinds = ['efunglobal', 'efunglobal', 'intmin', 'efunlocal', 'efunlocal', 'redeclare', 'redeclare', 'del', 'ins', 'dup', 'trunc', 'unstr', 'uncomment', 'untext', 'unlit', 'if', 'endif', 'else', 'defself', 'defmutual', 'macroargs', 'incself', 'incmissing',
+    kinds = ['longchain', 'efunglobal', 'efunglobal', 'intmin', 'efunlocal', 'efunlocal', 'redeclare', 'redeclare', 'del', 'ins', 'dup', 'trunc', 'unstr', 'uncomment', 'untext', 'unlit', 'if', 'endif', 'else', 'defself', 'defmutual', 'macroargs', 'incself', 'incmissing',
              'incdeep', 'litdeep', 'locals', 'args', 'strings', 'funcs', 'longline', 'longident', 'longstr', 'dupfun', 'conflict', 'random', 'nul', 'high', 'inhmissing', 'inhlate', 'superunknown', 'defprobe', 'pragma', 'unlit3', 'unlit3', 'iffatal']
     kind = rng.choice(kinds)
     n = len(text)
     pos = rng.randint(0, max(0, n - 1))
     nl = text.find('\n', pos) + 1 or n
-    if kind == 'del':
+    if kind == 'longchain':
+        # one expression with very many operands (a parse tree one level deep per operand): legal up to the compiler's own
+        # limits, and whatever it answers beyond them, it must answer as a compile error
+        m = rng.choice((3000, 9000, 11000, 30000, 100000)); opnd, op = rng.choice((('zc', '+'), ('zc', '-'), ('zs', '+'), ('zc', '|'), ('zc', '&&'), ('zc', ',')))
+        t = text + '\nint zc = 1; string zs = "s";\nmixed zchain() { return (' + (' ' + op + '\n').join([opnd] * m) + '); }\n'
+    elif kind == 'del':
         idx = [i for i, ch in enumerate(text) if ch in '{}();"'] or [0]
         i = rng.choice(idx); t = text[:i] + text[i + 1:]
     elif kind == 'ins': t = text[:pos] + rng.choice(STRUCT) + text[pos:]
